@@ -485,7 +485,7 @@ proof fn lemma_encoding_independent<T: Default>(cs1: Seq<T>, co1: Seq<usize>, rp
 // the call sites in unit odsxml): by construction (cols = running cells.len(), one repeat count per row), by its checks of the file's
 // repeat counts (`hyp`: every `number-rows-repeated` is positive, the rows stay within the 2^20 rows of a sheet, and read_row keeps
 // every row within the 2^14 columns), and the laws of the cell type.  No resource bound is needed any more.
-//@@ fn src/ods.rs get_range props=C04 entry ret=r
+//@@ fn src/ods.rs get_range props=C04,C14 entry ret=r
 //@@ sig
     requires
         lawful::<T>(),
@@ -498,7 +498,7 @@ proof fn lemma_encoding_independent<T: Default>(cs1: Seq<T>, co1: Seq<usize>, rp
         (forall|l: int, c: int| !nd(cells@, cols@, rows_repeats@, l, c)) <==> r.data().len() == 0,
         //# C04.empty_is_default_range
         r.data().len() == 0 ==> r.lo() == (0u32, 0u32) && r.hi() == (0u32, 0u32),
-        //# C04.bbox_contains
+        //# C04,C14.bbox_contains
         forall|l: int, c: int| nd(cells@, cols@, rows_repeats@, l, c) ==>
             r.lo().0 <= l <= r.hi().0 && r.lo().1 <= c <= r.hi().1,
         //# C04.bbox_tight_top
@@ -512,7 +512,7 @@ proof fn lemma_encoding_independent<T: Default>(cs1: Seq<T>, co1: Seq<usize>, rp
         //# C04.len_is_h_times_w
         r.data().len() > 0 ==>
             r.data().len() == (r.hi().0 - r.lo().0 + 1) * (r.hi().1 - r.lo().1 + 1),
-        //# C04.placement
+        //# C04,C14.placement
         r.data().len() > 0 ==>
             forall|l: int, c: int| r.lo().0 <= l <= r.hi().0 && r.lo().1 <= c <= r.hi().1 ==>
                 r.data()[(l - r.lo().0) * (r.hi().1 - r.lo().1 + 1) + (c - r.lo().1)] == lg(cells@, cols@, rows_repeats@, l, c),
